@@ -25,7 +25,9 @@ def run(sc, tier, seed):
     V.model_check(sc, "Replay", "ReplayProcMC.tla", "ReplayProc_chan.cfg", workers=2, timeout=900, expect_violation={"PerSourcePrefix"})
     out, meta = V.run_driver(sc, "c18", tier, seed, timeout=1500)
     R.add_meta(meta)
-    val = V.validate_traces(sc, "Replay", "ReplayTrace.tla", "ReplayTrace.cfg", meta["trace_files"], parallel=4)
+    # recordings of thousands of items are single trace lines: TLC needs a deeper JVM stack to read them
+    big = {"JAVA_TOOL_OPTIONS": "-Xmx3g -Xss512m -XX:ParallelGCThreads=2"}
+    val = V.validate_traces(sc, "Replay", "ReplayTrace.tla", "ReplayTrace.cfg", meta["trace_files"], parallel=4, env_extra=big)
     R.states += val["states"]
     R.handle_validation(val, "replayed data differs from the recording")
     # end to end through the replay service: POST /recordings/stream + WritePoints, archives adopted from the service
@@ -40,7 +42,8 @@ def run(sc, tier, seed):
 
 def replay(sc, path):
     seg = os.path.join(path, "segment.ndjson")
-    val = V.validate_traces(sc, "Replay", "ReplayTrace.tla", "ReplayTrace.cfg", [seg], parallel=1)
+    val = V.validate_traces(sc, "Replay", "ReplayTrace.tla", "ReplayTrace.cfg", [seg], parallel=1,
+                            env_extra={"JAVA_TOOL_OPTIONS": "-Xmx3g -Xss512m -XX:ParallelGCThreads=2"})
     if val["accepted"]:
         print("replay: segment is accepted by the current specification")
         return 0
